@@ -131,7 +131,7 @@ func TestVschedSelf(t *testing.T) {
 		tm := After(5 * time.Second)
 		Go(func() { Sleep(2 * time.Second); rec("slept") })
 		tm.Recv()
-		rec(fmt.Sprint("t", Since(t0)))
+		rec(fmt.Sprint("t", Since(t0).Truncate(time.Millisecond))) // Now() ticks 1 ns per call
 	}
 	o, n = explore(t, 1, prog4)
 	t.Logf("select/time: %s (%d)", keys(o), n)
@@ -189,5 +189,49 @@ func TestVschedSelf(t *testing.T) {
 	}
 	if traces[0] != traces[1] || traces[1] != traces[2] {
 		t.Fatalf("nondeterministic replay: %v", traces)
+	}
+	// 8. Cond: a missed signal (signal before wait, predicate not re-checked under the lock) deadlocks only
+	// with a preemption; the correct predicate loop never does.
+	condProg := func(correct bool) func(rec func(string)) {
+		return func(rec func(string)) {
+			var mu Mutex
+			cv := NewCond(&mu)
+			ready := false
+			Go(func() {
+				if correct {
+					mu.Lock()
+					ready = true
+					mu.Unlock()
+				} else {
+					ready = true
+				}
+				cv.Signal()
+			})
+			if correct {
+				mu.Lock()
+				for !ready {
+					cv.Wait()
+				}
+				mu.Unlock()
+			} else {
+				Yield()
+				if !ready { // check outside the lock, then wait: the signal can fall in between
+					mu.Lock()
+					cv.Wait()
+					mu.Unlock()
+				}
+			}
+			rec("woke")
+		}
+	}
+	o, n = explore(t, 2, condProg(true))
+	t.Logf("cond correct: %s (%d)", keys(o), n)
+	if len(o) != 1 || o["woke"] == 0 {
+		t.Fatalf("cond correct: %v", o)
+	}
+	o, n = explore(t, 2, condProg(false))
+	t.Logf("cond missed signal: %s (%d)", keys(o), n)
+	if o["|DEADLOCK"] == 0 || o["woke"] == 0 {
+		t.Fatalf("cond missed signal should both wake and deadlock: %v", o)
 	}
 }
